@@ -78,6 +78,10 @@ func CheckSpatialIdsArrayOverlap(spatialIds1 []string, spatialIds2 []string) (bo
 		if errAltConversion != nil {
 			return false, fmt.Errorf("%w @spatialId1[%v] = %v", errAltConversion, indexSpatialId1, spatialId1)
 		}
+		if zoom1 > consts.ZOriginValue {
+			// 1m未満のボクセルでは高度変換がメートル単位に丸められるため、切り捨てられた下位ビットを戻す
+			convertedFIndex += int64(f1) & (int64(1)<<(zoom1-consts.ZOriginValue) - 1)
+		}
 		index1 := tree.Indexs{convertedFIndex, int64(x1), int64(y1)}
 		tr.Append(index1, tree.ZoomSetLevel(zoom1), spatialId1)
 	}
@@ -96,6 +100,10 @@ func CheckSpatialIdsArrayOverlap(spatialIds1 []string, spatialIds2 []string) (bo
 		}
 		if errAltConversion != nil {
 			return false, fmt.Errorf("%w @spatialId2[%v] = %v", errAltConversion, indexSpatialId2, spatialId2)
+		}
+		if zoom2 > consts.ZOriginValue {
+			// 1m未満のボクセルでは高度変換がメートル単位に丸められるため、切り捨てられた下位ビットを戻す
+			convertedFIndex2 += int64(f2) & (int64(1)<<(zoom2-consts.ZOriginValue) - 1)
 		}
 		if len(spatialIds1) == 0 {
 			// 比較対象が空の場合、重複は発生しない(空の木への検索は行わない)
